@@ -311,7 +311,10 @@ int muggle_path_normpath(const char *path, char *ret, unsigned int size)
 			{
 				ret[pos++] = '.';
 				ret[pos++] = '.';
-				ret[pos++] = *cursor;
+				if (*cursor != '\0')
+				{
+					ret[pos++] = *cursor;
+				}
 			}
 			else
 			{
@@ -320,7 +323,10 @@ int muggle_path_normpath(const char *path, char *ret, unsigned int size)
 				{
 					ret[pos++] = '.';
 					ret[pos++] = '.';
-					ret[pos++] = *cursor;
+					if (*cursor != '\0')
+					{
+						ret[pos++] = *cursor;
+					}
 				}
 				else
 				{
